@@ -53,18 +53,38 @@ impl<R: BufRead> Decoder<R> {
     pub fn read_line(&mut self) -> IoResult<Option<&str>> {
         self.read_buf.clear();
 
-        if self.inner.read_until(b'\n', &mut self.read_buf)? == 0 {
+        // For UTF-16 a b'\n' can be one half of a code unit other than U+000A
+        // in which case the line continues.
+        loop {
+            if self.inner.read_until(b'\n', &mut self.read_buf)? == 0 {
+                break;
+            }
+
+            if !self.read_buf.ends_with(b"\n") || self.line_feed_is_complete()? {
+                break;
+            }
+        }
+
+        if self.read_buf.is_empty() {
             return Ok(None);
         }
 
-        // Reading up to b'\n' will miss the final b'\0' for an UTF-16LE encoded
-        // string so we need to read an additional byte.
-        if self.encoding == Encoding::Utf16LE && self.read_buf.ends_with(b"\n") {
-            // The input may end right after the b'\n'
-            self.read_byte()?;
-        }
-
         Ok(Some(self.curr_line()))
+    }
+
+    /// Whether the b'\n' at the end of `read_buf` is a whole line feed.
+    ///
+    /// Reading up to b'\n' will miss the final b'\0' for an UTF-16LE encoded
+    /// line feed so an additional byte is read in that case.
+    fn line_feed_is_complete(&mut self) -> IoResult<bool> {
+        let idx = self.read_buf.len() - 1;
+
+        match self.encoding {
+            Encoding::Utf8 => Ok(true),
+            Encoding::Utf16BE => Ok(idx % 2 == 1 && self.read_buf[idx - 1] == 0),
+            Encoding::Utf16LE if idx % 2 == 0 => Ok(self.read_byte()? == Some(0)),
+            Encoding::Utf16LE => Ok(false),
+        }
     }
 
     /// Reads a single byte into `read_buf`, if there is one left.
